@@ -106,9 +106,15 @@ def _extract_omega_delta_phi(
     noisy_samples: SequenceSamples,
     qubit_ids: tuple[str, ...],
     target_times: Sequence[float],
+    all_register_atoms: bool = False,
 ) -> tuple[torch.Tensor, torch.Tensor, torch.Tensor]:
     """
     Extract per-qubit laser parameters (Ω, δ, phase) from Pulser samples.
+
+    By default only the qubits addressed by some channel get a column. With
+    ``all_register_atoms=True`` there is one column per entry of ``qubit_ids``
+    (zero drive for qubits that no channel addresses), which is what the
+    backends need: they index the columns by register position.
 
     Pulser stores samples on the discrete grid t = 0, 1, ..., T-1
     (with dt = 1.0), i.e. it does not provide values exactly
@@ -136,7 +142,10 @@ def _extract_omega_delta_phi(
         raise ValueError(
             "Only `ground-rydberg` and `mw_global`(XY) channels are supported."
         )
-    qubit_ids_filtered = [qid for qid in qubit_ids if qid in locals_a_d_p]
+    if all_register_atoms:
+        qubit_ids_filtered = list(qubit_ids)
+    else:
+        qubit_ids_filtered = [qid for qid in qubit_ids if qid in locals_a_d_p]
 
     target_t = torch.as_tensor(target_times, dtype=torch.float64)
     t_mid = 0.5 * (target_t[:-1] + target_t[1:])
@@ -156,6 +165,8 @@ def _extract_omega_delta_phi(
     }
     for name, data_mid in laser_by_data.items():
         for q_pos, q_id in enumerate(qubit_ids_filtered):
+            if q_id not in locals_a_d_p:
+                continue  # never addressed: zero drive
             signal = torch.as_tensor(locals_a_d_p[q_id][name])
             if torch.is_complex(signal) and not torch.allclose(
                 signal.imag, torch.zeros_like(signal.imag)
@@ -323,7 +334,10 @@ class PulserData:
                 masked_interaction_matrix[:, target] = 0.0
 
             omega, delta, phi = _extract_omega_delta_phi(
-                samples.samples, self.qubit_ids, self.target_times
+                samples.samples,
+                self.qubit_ids,
+                self.target_times,
+                all_register_atoms=True,
             )
 
             interaction_matrix = _InteractionMatrixCallable(
